@@ -917,6 +917,17 @@ class Mesh2DTopology:
         connectivity. The standard name for this dimension is 'Two'.
         """
         two = 'Two'
+        # The edge connectivity variables are the ones that use this dimension.
+        # If any are present their other dimension is the one,
+        # whatever it is called and whichever other dimensions happen to have size two.
+        if self.has_edge_dimension:
+            for key in ['edge_node_connectivity', 'edge_face_connectivity']:
+                name = self.mesh_attributes.get(key)
+                if name is None or name not in self.dataset.variables:
+                    continue
+                for dimension in self.dataset.variables[name].dims:
+                    if dimension != self.edge_dimension and self.dataset.sizes[dimension] == 2:
+                        return dimension
         # Check for the standard name
         if two in self.dataset.sizes and self.dataset.sizes[two] == 2:
             return two
